@@ -214,7 +214,7 @@ func runC01(c *Ctx) {
 		}
 	}
 	scan(fn, b, map[ssa.Value]bool{fn.Params[0]: true, fn.Params[2]: true}, func(blk *ssa.BasicBlock) bool { return acceptBlocks[blk] }, 0)
-	r.Floor("C01.floor.consumers", nDec, 6, "consumers of key/sig bytes")
+	r.Floor("C01.floor.consumers", nDec, 4, "consumers of key/sig bytes")
 
 	// --- equation & k-hash
 	for _, rc := range accepts {
